@@ -112,7 +112,9 @@ def classify(phase, e):
     return 99
 
 def construct_real(spec, prot='http', out_prot=None):
-    """-> (app | None, code, info)"""
+    """-> (app | None, code, info).  The response protocol is JsonDocument (Soap11 for Soap11 requests):
+    XmlDocument and MessagePackRpc cannot serialise the primitive result of a bare-style method (a
+    response-side defect outside C11), and a failed response stops the auxiliary contexts from running."""
     S = _spyne()
     params = {}
     try:
@@ -121,7 +123,7 @@ def construct_real(spec, prot='http', out_prot=None):
         return None, classify('svc', e), '%s@%s' % (type(e).__name__, site_of(e))
     try:
         app = S['Application'](svcs, tns=spec['tns'], in_protocol=mkprot(prot),
-                               out_protocol=mkprot(out_prot or ('xml' if prot == 'http' else prot)))
+                               out_protocol=mkprot(out_prot or ('soap' if prot == 'soap' else 'json')))
     except Exception as e:
         return None, classify('app', e), '%s@%s' % (type(e).__name__, site_of(e))
     return app, 0, ''
@@ -490,6 +492,7 @@ def fixed_specs():
         ('op-names', A(S('S1', [M(1, 'foo', op='opfoo'), M(2, 'bar', inm='inbar'), M(3, 'opfoo_')]))),
         ('patterns', A(S('S1', [M(1, 'foo', patterns=[P('/a/<x>')]), M(2, 'bar', patterns=[P('/a/b')]),
                                M(3, 'baz', patterns=[P(None, 'DELETE')]), M(4, 'qux', patterns=[P('zz', 'GET'), P('/zz/<y>')])]))),
+        ('default-pattern-dotted-name', A(S('S1', [M(1, 'f1', op='put.x', patterns=[P(None, None)]), M(2, 'foo', patterns=[P(None, 'GET')])]))),
         ('pattern-shadows-name', A(S('S1', [M(1, 'foo', patterns=[P('/bar')]), M(2, 'bar')]))),
         ('dotted-service-name', A(S('S', [M(1, 'foo')], service_name='a.S'), S('S', [M(2, 'S.foo')], module='gen.a'),
                                   S('S', [M(3, 'foo', inm='{urn:o}foo2')], module='gen.a', service_name='S2'))),
@@ -499,7 +502,7 @@ XML_NAME = re.compile(r'[A-Za-z_][A-Za-z0-9_.-]*\Z')
 
 def near_misses(rng, n):
     v = [n.upper(), n.lower(), n.swapcase(), n[:-1], n[1:], n + n[-1:], n + '_', '_' + n, 'x' + n, n + 'x',
-         n + ' ', ' ' + n, n + 'Response', n.capitalize()]
+         n + ' ', ' ' + n, n + 'Response', n.capitalize(), n.replace('.', '-'), n.replace('.', 'x')]
     return [x for x in v if x and x != n]
 
 def gen_requests(rng, spec, prot, nper):
@@ -766,7 +769,7 @@ def run(check):
     ccases, dcases = [], []
     for label, spec in fixed_specs():
         run_spec(check, label, spec, tier, stats, ccases, dcases)
-    nclean, ndirty = (36, 36) if tier == 'quick' else (400, 400)
+    nclean, ndirty = (110, 110) if tier == "quick" else (900, 900)
     for i in range(nclean):
         run_spec(check, 'clean%d' % i, gen_spec(rng, 'clean'), tier, stats, ccases, dcases, full_requests=(i % 3 == 0 or tier != 'quick'))
     for i in range(ndirty):
@@ -778,6 +781,18 @@ def run(check):
     bad = lib.flush_correspondences(check)
     check.extra['distribution'] = stats
     return check.finish()
+
+
+def _finish_replay(check):
+    """verdict of a replay without rewriting the evidence file of the last full run"""
+    for key, what in check.known_seen.items():
+        check.say('KNOWN-FINDING: property=%s %s [%s]' % (check.pid, what, key))
+    for key, what, path in check.violations:
+        check.say('VIOLATION property=%s replay=%s' % (check.pid, path))
+        check.log('  violation: %s [%s]' % (what, key))
+    if not check.violations:
+        check.log('replay: no violation reproduced on %s' % lib.REPO)
+    return 1 if check.violations else 0
 
 
 def replay(check, path):
@@ -808,4 +823,4 @@ def replay(check, path):
         oracle_identical_patterns(check)
     else:
         print('nothing to re-run for this replay (broken obligation / correspondence)')
-    return check.finish()
+    return _finish_replay(check)
